@@ -425,6 +425,52 @@ fn c07(d: &Digest, s: usize, out: &mut Vec<Violation>) {
             }
         }
     }
+    // reducers registered before the dispatch are in the pipeline (same membership rule as C01 b)
+    if !sd.model.hole_reducers {
+        for inst in &sd.insts {
+            if d.vetoed(inst) {
+                continue;
+            }
+            let tags: Vec<u32> = inst
+                .evs
+                .iter()
+                .filter_map(|&i| match &d.ev[i].k {
+                    K::RedB { tag, .. } => Some(*tag),
+                    _ => None,
+                })
+                .collect();
+            if let Err(e) = check_tags(d, inst, &tags, &sd.model.reducers, &sd.added_reducers, s) {
+                v(out, "C07", "reducer-membership", format!("store {s} action {}: {e}", inst.act));
+            }
+        }
+    }
+    // direct subscribers registered before the dispatch (and not unsubscribed) are told
+    if sd.clean_stop.is_some() && sd.model.policy == Policy::Block {
+        for (reg, (sub, st, ci)) in &d.regs {
+            if *st != s || *d.sub_kind(*sub) != SubKind::Direct || d.regs.values().filter(|x| x.0 == *sub).count() != 1 {
+                continue;
+            }
+            let add = &d.calls[*ci];
+            let Some(add_ret) = add.ret else { continue };
+            if !add.ok() {
+                continue;
+            }
+            let u1 = d.calls.iter().filter(|c| matches!(c.op, OpK::Unsub { reg: r } if r == *reg) && c.res != Some(Res::Skipped)).map(|c| c.inv).min();
+            let log = sub_log(d, *sub);
+            for inst in &sd.insts {
+                if d.notify_exp(inst) != NotifyExp::Must {
+                    continue;
+                }
+                let Some(dc) = d.dispatch_call_of(s, inst.act) else { continue };
+                if add_ret >= dc.inv || u1.map(|u| u < d.inst_end_bound(s, inst)).unwrap_or(false) {
+                    continue;
+                }
+                if !log.iter().any(|x| x.0 == inst.act) {
+                    v(out, "C07", "subscriber-membership", format!("store {s}: subscriber {sub}, registered before action {} was dispatched, was left out of its pipeline", inst.act));
+                }
+            }
+        }
+    }
     // an action's callbacks never interleave with another's: instances are maximal runs, so a
     // split pipeline shows up as the same action in two instances (reported by C01 a) or as
     // a phase-order break above.
